@@ -4,6 +4,9 @@ C = "clematis/engine/stages/t2/core.py"
 P = "clematis/engine/stages/t2/parallel.py"
 S = "clematis/engine/stages/t2/shard.py"
 CASES = [
+    ("shard-reducer-returns-generator", "mutant", C, "                    merge_fn=lambda pairs: [hits for _, hits in pairs],\n", "                    merge_fn=lambda pairs: (hits for _, hits in pairs),\n", "C09.CALL"),
+    ("shard-merge-fed-generator", "mutant", C, "                merged, used_tiers = _merge_tier_hits_across_shards(shard_hits, tiers, k_retrieval)\n", "                merged, used_tiers = _merge_tier_hits_across_shards((h for h in shard_hits), tiers, k_retrieval)\n", "C09.CALL"),
+    ("shard-merge-fed-list-of-generator", "twin", C, "                merged, used_tiers = _merge_tier_hits_across_shards(shard_hits, tiers, k_retrieval)\n", "                merged, used_tiers = _merge_tier_hits_across_shards(list(h for h in shard_hits), tiers, k_retrieval)\n", None),
     ("as-completed-no-sort", "mutant", U,
      [("        for idx, k, fut in futures:\n            try:\n                r = fut.result()\n", "        _by = {fut: (idx, k) for idx, k, fut in futures}\n        for fut in as_completed(list(_by)):\n            idx, k = _by[fut]\n            try:\n                r = fut.result()\n"),
       ("        (k, r) for _, k, r in sorted(results_unordered, key=lambda t: (order_key(t[1]), t[0]))\n", "        (k, r) for _, k, r in results_unordered\n")], None, "C09.MERGE"),
